@@ -1,3 +1,4 @@
+import Cirbo.Proofs.ExtractTotal
 import Cirbo.Proofs.Connect
 import Cirbo.Proofs.ConnSem
 import Cirbo.Proofs.ConnFull
@@ -18,7 +19,9 @@ import Cirbo.Model.Wrappers
 -- OBLIGATION: c10_block_extraction_right
 -- OBLIGATION: c10_left_connection_returns
 -- OBLIGATION: c10_right_connection_returns
--- PARTIAL: proved for every left connection (connect_circuit(right_connect=False), connect_left, extend_circuit, add_circuit): (1) only gates are added and every base gate keeps its value under every assignment; (2) the attached gates compute the attached circuit's function of the values at the connectors (a renaming of the attached circuit's labels — connectors to the base gates they were identified with, other gates to their prefixed copies — turns every valuation of the result into a valuation of the attached circuit). (3) the exact inputs/outputs lists of the result (kept base interface minus connectors, then the attached circuit's unconnected inputs/outputs, renamed, in order), the block recording the attached circuit (its inputs/outputs are the attached circuit's, renamed) and the survival of older blocks (c10_left_connection_interface_and_block). The right direction (connect_circuit(right_connect=True), connect_right, connect_inputs, extend_circuit(right_connect=True)) is proved in the same form (c10_right_connection_computes_the_composition): the fed base inputs become the connector gates (same label, the connector's type and renamed operands), every other base gate is kept, so every valuation of the result satisfies the base circuit's gate equations and — read through the renaming — the attached circuit's; with the exact inputs/outputs lists, the recorded block and the survival of older blocks. Re-extraction (c10_block_extraction_left/right): `get_block(name).into_circuit()` is modelled (Model/Wrappers.lean intoCircuit, compared with the code on every run) and proved to return, whenever it returns, a circuit with the attached circuit's renamed inputs and outputs in which every valuation is, through the renaming, a valuation of the attached circuit (the block lists exactly the images of the attached circuit's non-INPUT gates; for the right direction this needed the fix recorded in known_findings.json). That `into_circuit` does return is by correspondence. Total correctness of the connections themselves (c10_left_connection_returns / c10_right_connection_returns): on circuits satisfying the invariant, with connectors of the documented kind and fresh copy labels / block names (the only documented reasons for an error), `connect_circuit` returns. All of it is modelled one-to-one (Model/Mutate2.lean connStep/connFinish) and compared with the code field by field (both directions, wrappers, name/prefix options, repeated composition); the implementation's result is checked against the composed evaluation of the two operands on all assignments, against the documented interface, checkWFU and block extraction.
+-- OBLIGATION: c10_block_extraction_left_returns
+-- OBLIGATION: c10_block_extraction_right_returns
+-- PARTIAL: proved for every left connection (connect_circuit(right_connect=False), connect_left, extend_circuit, add_circuit): (1) only gates are added and every base gate keeps its value under every assignment; (2) the attached gates compute the attached circuit's function of the values at the connectors (a renaming of the attached circuit's labels — connectors to the base gates they were identified with, other gates to their prefixed copies — turns every valuation of the result into a valuation of the attached circuit). (3) the exact inputs/outputs lists of the result (kept base interface minus connectors, then the attached circuit's unconnected inputs/outputs, renamed, in order), the block recording the attached circuit (its inputs/outputs are the attached circuit's, renamed) and the survival of older blocks (c10_left_connection_interface_and_block). The right direction (connect_circuit(right_connect=True), connect_right, connect_inputs, extend_circuit(right_connect=True)) is proved in the same form (c10_right_connection_computes_the_composition): the fed base inputs become the connector gates (same label, the connector's type and renamed operands), every other base gate is kept, so every valuation of the result satisfies the base circuit's gate equations and — read through the renaming — the attached circuit's; with the exact inputs/outputs lists, the recorded block and the survival of older blocks. Re-extraction (c10_block_extraction_left/right): `get_block(name).into_circuit()` is modelled (Model/Wrappers.lean intoCircuit, compared with the code on every run) and proved to return, whenever it returns, a circuit with the attached circuit's renamed inputs and outputs in which every valuation is, through the renaming, a valuation of the attached circuit (the block lists exactly the images of the attached circuit's non-INPUT gates; for the right direction this needed the fix recorded in known_findings.json). That `into_circuit` does return is proved as well (c10_block_extraction_left_returns / _right_returns). Total correctness of the connections themselves (c10_left_connection_returns / c10_right_connection_returns): on circuits satisfying the invariant, with connectors of the documented kind and fresh copy labels / block names (the only documented reasons for an error), `connect_circuit` returns. All of it is modelled one-to-one (Model/Mutate2.lean connStep/connFinish) and compared with the code field by field (both directions, wrappers, name/prefix options, repeated composition); the implementation's result is checked against the composed evaluation of the two operands on all assignments, against the documented interface, checkWFU and block extraction.
 -/
 namespace Cirbo
 open GateType Circuit
@@ -181,5 +184,31 @@ theorem c10_right_connection_returns {c other : Circuit} {thisC otherC : List La
 #print axioms c10_block_extraction_right
 #print axioms c10_left_connection_returns
 #print axioms c10_right_connection_returns
+
+/-- **re-extraction returns**: after a named left connection `get_block(name).into_circuit()` returns, and the result
+is the attached circuit up to the renaming (total form of `c10_block_extraction_left`) -/
+theorem c10_block_extraction_left_returns {c other c' : Circuit} {thisC otherC : List Label} {name : Label} {addP : Bool}
+    (hw : WFS c) (hwo : WFS other)
+    (h : c.connectCircuit other thisC otherC false name addP = .ok c') (hname : name ≠ "") :
+    ∃ E, c'.blockIntoCircuit name = .ok E ∧ ∃ φ : Label → Label,
+      (∀ l x, Dict.get? (connMapping thisC otherC) l = some x → φ l = x) ∧
+      (∀ g ∈ other.gates, g.label ∉ otherC → φ g.label = connPre name addP ++ g.label) ∧
+      (∀ b v, IsValB E b v → IsValB other (v ∘ φ) (v ∘ φ)) ∧
+      E.inputs = other.inputs.map φ ∧ E.outputs = other.outputs.map φ :=
+  et_block_extraction_left_total hw hwo h hname
+
+/-- … and after a named right connection -/
+theorem c10_block_extraction_right_returns {c other c' : Circuit} {thisC otherC : List Label} {name : Label} {addP : Bool}
+    (hw : WFS c) (hwo : WFS other)
+    (h : c.connectCircuit other thisC otherC true name addP = .ok c') (hname : name ≠ "") :
+    ∃ E, c'.blockIntoCircuit name = .ok E ∧ ∃ φ : Label → Label,
+      (∀ l x, Dict.get? (connMapping thisC otherC) l = some x → φ l = x) ∧
+      (∀ g ∈ other.gates, Dict.contains (connMapping thisC otherC) g.label = false → φ g.label = connPre name addP ++ g.label) ∧
+      (∀ b v, IsValB E b v → IsValB other (v ∘ φ) (v ∘ φ)) ∧
+      E.inputs = other.inputs.map φ ∧ E.outputs = other.outputs.map φ :=
+  et_block_extraction_right_total hw hwo h hname
+
+#print axioms c10_block_extraction_left_returns
+#print axioms c10_block_extraction_right_returns
 
 end Cirbo
